@@ -5,8 +5,12 @@ from tools import common, impl, rawdefs, synth
 
 def lib_view(defs_dir):
     from replay_unpack.core.entity_def.definitions import Definitions
+    return lib_view_of(Definitions(defs_dir))
+
+
+def lib_view_of(d):
+    """the same view of a Definitions object obtained some other way (e.g. the one a ReplayPlayer resolved for a version)"""
     from replay_unpack.core.entity import Entity
-    d = Definitions(defs_dir)
     out = []
     names = list(d._entity_defs_by_name)
     for i in range(1, len(names) + 1):
